@@ -384,7 +384,47 @@ func ruleR09f(c *Ctx) {
 		return
 	}
 	got := map[string]string{}
-	for _, b := range tick.Blocks {
+	// the posting is built in tick, or in a method of the machine that tick calls for the opcode (`m.opSend()`)
+	sendFns := []*ssa.Function{tick}
+	seenFn := map[*ssa.Function]bool{tick: true}
+	for i := 0; i < len(sendFns) && i < 40; i++ {
+		allCalls(sendFns[i], func(ci ssa.CallInstruction) {
+			if g := staticCallee(ci); g != nil && fnPkgPath(origin(g)) == pkgVM && len(g.Blocks) > 0 && !seenFn[g] && g.Signature.Recv() != nil {
+				seenFn[g] = true
+				sendFns = append(sendFns, g)
+			}
+		})
+	}
+	// a value popped from the stack: pop[T](m), or a typed wrapper of it (`m.popAccount()`)
+	var isPop func(call *ssa.Call, depth int) bool
+	isPop = func(call *ssa.Call, depth int) bool {
+		g := staticCallee(call)
+		if g == nil || depth > 2 {
+			return false
+		}
+		if origName(g) == "pop" {
+			return true
+		}
+		if fnPkgPath(origin(g)) != pkgVM || len(g.Blocks) == 0 {
+			return false
+		}
+		n := 0
+		for _, b := range g.Blocks {
+			if r, ok := b.Instrs[len(b.Instrs)-1].(*ssa.Return); ok && len(r.Results) == 1 {
+				n++
+				inner, ok := r.Results[0].(*ssa.Call)
+				if !ok || !isPop(inner, depth+1) {
+					return false
+				}
+			}
+		}
+		return n > 0
+	}
+	var sendBlocks []*ssa.BasicBlock
+	for _, f := range sendFns {
+		sendBlocks = append(sendBlocks, f.Blocks...)
+	}
+	for _, b := range sendBlocks {
 		for _, ins := range b.Instrs {
 			s, ok := ins.(*ssa.Store)
 			if !ok {
@@ -414,7 +454,7 @@ func ruleR09f(c *Ctx) {
 				_ = ex
 				desc = "popped"
 			} else if call, ok := v.(*ssa.Call); ok {
-				if fcal := staticCallee(call); fcal != nil && origName(fcal) == "pop" {
+				if isPop(call, 0) {
 					desc = "popped:" + types.TypeString(call.Type(), func(p *types.Package) string { return p.Name() })
 				}
 			}
